@@ -150,12 +150,8 @@ mod base {
         const RECORD_RECOVERY: TokenSet = TokenSet::new(&[Kind::Number, Kind::Comma]);
 
         fn script_record_body(parser: &mut Parser, recovery: TokenSet) {
-            parser.eat_remap(TokenSet::TAG_LIKE, AstKind::Tag);
-            parser.expect_remap_recover(
-                TokenSet::TAG_LIKE,
-                AstKind::Tag,
-                recovery.union(RECORD_RECOVERY),
-            );
+            parser.expect_tag(recovery.union(RECORD_RECOVERY));
+            parser.expect_tag(recovery.union(RECORD_RECOVERY));
             parser.expect_recover(Kind::Number, recovery.union(RECORD_RECOVERY));
             while parser.eat(Kind::Number) {
                 continue;
@@ -174,8 +170,8 @@ mod base {
     fn expect_minmax(parser: &mut Parser, recovery: TokenSet) -> bool {
         const MINMAX_RECOVERY: TokenSet = TokenSet::new(&[Kind::Number, Kind::Comma]);
         let recovery = recovery.union(MINMAX_RECOVERY);
-        if !(parser.expect_remap_recover(TokenSet::TAG_LIKE, AstKind::Tag, recovery)
-            && parser.expect_remap_recover(TokenSet::TAG_LIKE, AstKind::Tag, recovery)
+        if !(parser.expect_tag(recovery).is_some()
+            && parser.expect_tag(recovery).is_some()
             && parser.expect_recover(Kind::Number, recovery)
             && parser.expect_recover(Kind::Comma, recovery)
             && parser.expect_recover(Kind::Number, recovery))
@@ -195,7 +191,7 @@ mod base {
     // eat a statement like TAG NUM, NUM[,] e.g. (kern -400, 400[,])
     fn eat_feature_values(parser: &mut Parser, recovery: TokenSet) -> bool {
         parser.in_node(AstKind::BaseMinMaxFeatureNode, |parser| {
-            parser.expect_remap_recover(TokenSet::TAG_LIKE, AstKind::Tag, recovery)
+            parser.expect_tag(recovery).is_some()
                 && parser.expect_recover(Kind::Number, recovery)
                 && parser.expect_recover(Kind::Comma, recovery)
                 && parser.expect_recover(Kind::Number, recovery)
